@@ -42,7 +42,7 @@ var c05Faults = []string{
 	`[1,2].nosuch()`, `a.nosuch()`, `[1,2].accept(x->x).size()`, `[1,2].indexWhere(x->7)`, `[1,2].order(x->[x]).size()`, `[1,"x"].order(x->x).size()`, `[1,2].orderLess((p,q)->7).size()`, `[1,2].combineN("x",w->w).size()`,
 	`[1,2].combineN(0,w->w).size()`, `[1,2].combineN(0-1,w->w).size()`, `[1,2].cross(3,(p,q)->p).size()`, `[1,2].merge(3,(p,q)->p<q).size()`, `[1,2].merge([1],(p,q)->7).size()`, `[1,2].multiUse(3)`, `[1,2].multiUse({u:3})`, `[1,2].multiUse({u:l->l.nosuch()})`,
 	`[1,2].groupByInt(x->"k").size()`, `[1,2].groupByString(x->x).size()`, `[1,2].uniqueInt(x->[x]).size()`, `[1,2].minMax(x->"k")`, `[1,"x"].minMax(x->x)`, `[1,"x"].sum()`, `[1,[2]].mean()`, `[1,2].iir(3,4).size()`, `[1,2].visit(0,3)`, `[1,2].fsm(x->x).size()`,
-	`[1,2].binning(0,0,2,x->x,x->1)`, `[1,2].binning("x",1,2,x->x,x->1)`, `[1,2].binning(0,1,0-5,x->x,x->1)`, `[1].collectBinning()`, `[1,2].movingWindow(x->"k").size()`, `[1,2].top(0-1-(b&255)).size()`,
+	`[1,2].binning(0,0,2,x->x,x->1)`, `[1,2].binning("x",1,2,x->x,x->1)`, `[1,2].binning(0,1,0-5,x->x,x->1)`, `[1].collectBinning()`, `[1,2].movingWindow(x->"k").size()`, `[1,2].top(0-1-(b&255)).size()`, `[1,2].skip(0-1-(b&255)).size()`, `[1,2,3].skip(0-1-z).first()`, `numbers(3).eval().skip(0-2-z).size()`,
 	`"abc".cut("x",1)`, `"abc".cut(0-1-(b&255),1)`, `"abc".split(1)`, `"abc".toInt()`, `"abc".nosuch()`, `{k:1}.put(a,1)`, `{k:1}.put("k",1)`, `{k:1}.get(a)`, `{k:1}.get("z")`, `{k:1}.replace(3)`, `{k:1}.replace(m->3)`, `{k:1}.map(3)`, `{k:1}.accept((k,v)->7)`, `{k:1}.combine(3,(p,q)->p)`, `{k:1}.combine({z:1},(p,q)->p)`,
 	// host functions and explicit throw
 	`throw("boom")`, `throw(a)`, `hostPanic(a)`, `hostNilErr(a)+1`, `hostErr(a)`,
@@ -120,7 +120,7 @@ var c05Consumers = []string{
 	`groupByInt(x->x).size()`, `groupByString(x->"k"+x).size()`, `groupByEqual(x->x).size()`, `uniqueInt(x->x).size()`, `uniqueString(x->""+x).size()`,
 	`combine((p,q)->p+q).sum()`, `iir(x->x,(x,l)->l+x).last()`, `movingWindow(x->x).size()`, `compact((p,q)->p=q).size()`, `top(25).size()`, `string()`,
 	`mapReduce(0,(s,x)->s+x)`, `visit(0,(v,x)->v+x)`, `indexWhere(x->x>100)`, `present(x->x<0)`, `number((i,x)->i+x).sum()`, `fsm((s,x)->goto(x%2)).size()`,
-	`createInterpolation(x->x,x->x)(3)`, `linearReg(x->x,x->x).a`, `accept(x->x>0).size()`, `[300] ~ numbers(3)`, `cross([1],(p,q)->p+q).sum()`, `reverse().first()`, `set(3,1).size()`, `append(1).size()`,
+	`createInterpolation(x->x,x->x)(3)`, `linearReg(x->x,x->x).a`, `accept(x->x>0).size()`, `[300] ~ numbers(3)`, `cross([1],(p,q)->p+q).sum()`, `reverse().first()`, `set(3,1).size()`, `append(1).size()`, `eval().skip(0-3).size()`, `eval().top(0-3).size()`, `eval().skip(100).size()`,
 }
 
 func c05Generator() *value.FunctionGenerator {
